@@ -143,6 +143,23 @@ class Walker:
                 for t in st.targets:
                     if isinstance(t, ast.Name):
                         env[t.id] = v
+                    elif isinstance(t, ast.Subscript) and isinstance(t.value, ast.Name) and isinstance(env.get(t.value.id), tuple) \
+                            and env[t.value.id][0] == 'buf':
+                        # w[mask] = values : a buffer assembled from complementary, reflection-symmetric selections
+                        m_ = self.ev(t.slice, env)
+                        buf = env[t.value.id][1]
+                        if not (isinstance(m_, tuple) and m_[0] == 'mask' and m_[1].get('side') in ('mid', 'notmid') and isinstance(v, D)):
+                            raise AnalysisError('window analysis: unsupported masked store %s' % normalise(t))
+                        parts = dict(buf['parts'])
+                        parts[m_[1]['side']] = (v, m_[1].get('bound'))
+                        nb = {'length': buf['length'], 'parts': parts}
+                        if set(parts) == {'mid', 'notmid'} and iszero(parts['mid'][1] - parts['notmid'][1]) \
+                                and all(p_[0].kind == SYM for p_ in parts.values()):
+                            r_ = D(SYM, parts['mid'][0].centre, buf['length'])        # the centre sample lies in the |grid| <= bound part
+                            r_.hazard = parts['mid'][0].hazard + parts['notmid'][0].hazard
+                            env[t.value.id] = r_
+                        else:
+                            env[t.value.id] = ('buf', nb)
                     else:
                         raise AnalysisError('window analysis: unsupported assignment target %s' % normalise(t))
                 continue
@@ -275,6 +292,11 @@ class Walker:
             raise AnalysisError('window analysis: attribute %s' % normalise(e))
         if isinstance(e, ast.UnaryOp):
             v = self.ev(e.operand, env)
+            if isinstance(e.op, (ast.Invert, ast.Not)) and isinstance(v, tuple) and v[0] == 'mask' and v[1].get('side') in ('mid', 'notmid'):
+                info = dict(v[1])
+                info['side'] = 'notmid' if info['side'] == 'mid' else 'mid'
+                info.pop('count', None)
+                return ('mask', info)
             if isinstance(e.op, ast.USub):
                 return self.binop(ast.Mult(), scalar(sp.Integer(-1)), v, e)
             return v
@@ -505,6 +527,8 @@ class Walker:
             if a.centre is None or b.centre is None:
                 raise AnalysisError('window analysis: linspace bounds')
             return D(REFL, (a.centre + b.centre) / 2, N, c=sp.simplify(a.centre + b.centre))
+        if name in ('empty_like', 'zeros_like') and args and isinstance(args[0], D) and args[0].length is not None:
+            return ('buf', {'length': args[0].length, 'parts': {}})
         if name == 'ones':
             ln = args[0].centre if isinstance(args[0], D) else None
             return D(SYM, sp.Integer(1), ln)
@@ -743,6 +767,9 @@ class Walker:
                 r = D(REFL, base.centre, fresh('L'), c=base.c)       # symmetric restriction of an antisymmetric grid
                 self.midmasks.append((info['bound'], info['strict']))
                 return r
+            if info['side'] == 'notmid':
+                # the complement of a reflection-symmetric selection is reflection-symmetric too (it does not hold the centre)
+                return D(base.kind, None, fresh('L'), c=base.c) if base.kind in (REFL, SYM) else D(TOP, None, fresh('L'))
             _UNK[0] += 1
             r = D(SUB, None, info.setdefault('count', fresh('L')))
             r.extra = {'id': _UNK[0], 'flipped': False}
